@@ -123,6 +123,25 @@ func ParseShootName(shoot string) (string, int, int, error) {
 	return name, cnt, sleep, nil
 }
 
+// MaxSpreadSize bounds the number of ammo the scenario weights are spread into. Weights are user input: absurd
+// ones must be a config error, not a slice capacity that overflows int (make panics on a negative or
+// out-of-range capacity) or an allocation that exhausts the memory of the generator.
+const MaxSpreadSize = 1 << 24
+
+// CheckSpread reports a result of SpreadNames that must not be used to allocate the ammo: a count or a total
+// that is negative (the sum of the weights overflowed) or above MaxSpreadSize.
+func CheckSpread(names map[string]int, total int) error {
+	if total < 0 || total > MaxSpreadSize {
+		return fmt.Errorf("scenario weights are too large: they spread into %d ammo, at most %d are allowed", total, MaxSpreadSize)
+	}
+	for name, cnt := range names {
+		if cnt < 0 || cnt > MaxSpreadSize {
+			return fmt.Errorf("scenario %s: weight is too large: it spreads into %d ammo, at most %d are allowed", name, cnt, MaxSpreadSize)
+		}
+	}
+	return nil
+}
+
 func SpreadNames(input []ScenarioConfig) (map[string]int, int) {
 	if len(input) == 0 {
 		return nil, 0
